@@ -57,14 +57,18 @@ def to_opb_file(formula, fileorname=None,
     if export_header:
         # remove non ascii text
         for field in formula.header:
-            tmp = "* {}: {}\n".format(field, formula.header[field])
+            tmp = "{}: {}".format(field, formula.header[field])
             tmp = tmp.encode('ascii', errors='replace').decode('ascii')
-            output.write(tmp)
+            # every line of a multi-line value stays inside the comment
+            for line in tmp.splitlines() or ['']:
+                output.write("* " + line + "\n")
         output.write("*\n")
 
     if export_varnames:
         for varid, label in enumerate(formula.all_variable_labels(), start=1):
-            output.write("* varname x{0} {1}\n".format(varid, label))
+            tmp = "varname x{0} {1}".format(varid, label)
+            for line in tmp.splitlines() or ['']:
+                output.write("* " + line + "\n")
         output.write("*\n")
 
     # Clauses
